@@ -17,7 +17,7 @@ func init() {
 		Level: "other",
 		Explanation: "Decided (structural necessary conditions): (R10.1) every configuration method of *Extractor returns a value derived from clone() and neither writes through its receiver nor appends onto a slice owned by it; (R10.2) clone functions copy every field and rebuild reference-holding fields; (R10.4) every exported method that opens the reader, except the documented non-terminal ones, defers Close on every path after the open succeeds; (R10.5) every file/zip acquisition is closed on each error return and handed to the returned owner on success, and Close methods clear what they test; (R10.6) page numbers reaching the result of resolvePages passed the range check, are de-duplicated and sorted; (R10.7) the page number stamped on a model page survives AddPage. " +
 			"Not decided: that a selection yields exactly the per-page results (needs C01), descriptor counts at run time, the per-page join rule.",
-		Rules: []func(*eng.Ctx){constructorBypassedRule("R10.CL", "", "model", "pages", "reader"), deleteInRangeRule("R10.DR", "", "model", "pages", "reader"), lostLoopCopyWriteRule("R10.LC", "", "layout", "text", "model", "rag"), ruleEverySelectedPageAdded, ruleTOCEntryPerHeading, ruleCloseClearsOnlyOwned, ruleAllRequestedPagesValidated, ruleBuilderPurity, ruleCloneComplete, ruleTerminalClose, ruleResourcePairing, rulePageRange, rulePageStamp, ruleFilterPageIndex, roleRule("R10.R", "tabula"), ruleCloseResetsFlags, ruleSeparatorBetweenNonEmpty, ruleNoSharedOwnership, ruleDetectAllPages, ruleFontsFromOwnResources, rulePageRangeInclusive, rulePerPageDecision, ruleSelectionReadonly},
+		Rules: []func(*eng.Ctx){ruleFluentExtractorEvaluated, constructorBypassedRule("R10.CL", "", "model", "pages", "reader"), deleteInRangeRule("R10.DR", "", "model", "pages", "reader"), lostLoopCopyWriteRule("R10.LC", "", "layout", "text", "model", "rag"), ruleEverySelectedPageAdded, ruleTOCEntryPerHeading, ruleCloseClearsOnlyOwned, ruleAllRequestedPagesValidated, ruleBuilderPurity, ruleCloneComplete, ruleTerminalClose, ruleResourcePairing, rulePageRange, rulePageStamp, ruleFilterPageIndex, roleRule("R10.R", "tabula"), ruleCloseResetsFlags, ruleSeparatorBetweenNonEmpty, ruleNoSharedOwnership, ruleDetectAllPages, ruleFontsFromOwnResources, rulePageRangeInclusive, rulePerPageDecision, ruleSelectionReadonly},
 	})
 }
 
